@@ -384,12 +384,17 @@ impl C02 {
     /// the classic race: {increase, decrease, draw} in all orders, around the expiry
     fn directed(&self, h: &mut Hist) -> bool {
         let idx = h.idx;
-        if idx >= 36 {
+        // thorough tier: additionally all 24 orders of a 4-op set {increase, decrease, draw, burn-from}
+        let four = h.tier == Tier::Thorough && (36..36 + 144).contains(&idx);
+        if idx >= 36 && !four {
             return false;
         }
-        let perm = (idx % 6) as usize;
-        let timing = ((idx / 6) % 3) as usize; // before / at / after expiry
-        let kind_time = idx / 18 == 1;
+        let (perm, timing, kind_time) = if four {
+            let j = idx - 36;
+            ((j % 24) as usize, ((j / 24) % 3) as usize, j / 72 == 1)
+        } else {
+            ((idx % 6) as usize, ((idx / 6) % 3) as usize, idx / 18 == 1)
+        };
         let p = pool();
         let (owner, spender, dest) = (p.actors[0].clone(), p.actors[1].clone(), p.actors[2].clone());
         let mut c = Cw20::new(&mut h.rng);
@@ -421,15 +426,36 @@ impl C02 {
         let inc = (owner.clone(), Op::Inc { spender: spender.clone(), amt: 20, exp: None });
         let dec = (owner.clone(), Op::Dec { spender: spender.clone(), amt: 50, exp: None });
         let draw = (spender.clone(), Op::TransferFrom { owner: owner.clone(), to: dest.clone(), amt: 60 });
-        let orders = [[0, 1, 2], [0, 2, 1], [1, 0, 2], [1, 2, 0], [2, 0, 1], [2, 1, 0]];
-        let ops = [inc, dec, draw];
-        for i in orders[perm] {
-            let (s, o) = &ops[i];
-            if !self.step(h, &mut c, &mut led, &mut pre, s, o) {
-                return true;
+        if four {
+            let burn = (spender.clone(), Op::BurnFrom { owner: owner.clone(), amt: 30 });
+            let ops = [inc, dec, draw, burn];
+            // perm-th permutation of 0..4 (Lehmer code)
+            let mut items = vec![0usize, 1, 2, 3];
+            let mut code = perm;
+            let mut order = vec![];
+            for f in [6usize, 2, 1, 1] {
+                let k = code / f;
+                code %= f;
+                order.push(items.remove(k.min(items.len() - 1)));
             }
+            for i in order {
+                let (s, o) = &ops[i];
+                if !self.step(h, &mut c, &mut led, &mut pre, s, o) {
+                    return true;
+                }
+            }
+            h.out.count("four_op_permutations_run");
+        } else {
+            let orders = [[0, 1, 2], [0, 2, 1], [1, 0, 2], [1, 2, 0], [2, 0, 1], [2, 1, 0]];
+            let ops = [inc, dec, draw];
+            for i in orders[perm] {
+                let (s, o) = &ops[i];
+                if !self.step(h, &mut c, &mut led, &mut pre, s, o) {
+                    return true;
+                }
+            }
+            h.out.count("race_permutations_run");
         }
-        h.out.count("race_permutations_run");
         // second draw attempts: whatever is left, then one more unit
         let left = c.allowance(&owner, &spender).0;
         let _ = self.step(h, &mut c, &mut led, &mut pre, &spender, &Op::BurnFrom { owner: owner.clone(), amt: left })
@@ -438,12 +464,105 @@ impl C02 {
     }
 }
 
+impl C02 {
+    /// AppDriver pass: the Receive notification is really DELIVERED exactly once on success and
+    /// not at all on failure (the sink contract records deliveries in its own storage).
+    fn app_pass(&self, h: &mut Hist) {
+        use crate::chain::Chain;
+        use cosmwasm_std::{Binary, Uint128};
+        let p = pool();
+        let mut c = Chain::new(h.rng.range(10, 5000), 1_700_000_000);
+        let sink = c.new_sink();
+        let sink2 = c.new_sink();
+        let bals: Vec<(String, u128)> = p.actors.iter().map(|a| (a.clone(), 10_000u128)).collect();
+        let tok = c.new_cw20(false, &bals, None);
+        // allowances so that SendFrom can work
+        for o in &p.actors[..3] {
+            for s in &p.actors[3..] {
+                let _ = c.exec(o, &tok, &cw20::Cw20ExecuteMsg::IncreaseAllowance { spender: s.clone(), amount: Uint128::new(500), expires: None }, &[]);
+            }
+        }
+        let mut ctr = 0u64;
+        let mut failing = false;
+        let n = h.tier.pick(40, 60);
+        for _ in 0..n {
+            if h.rng.chance(1, 6) {
+                failing = !failing;
+                c.sink_fail(&sink, failing);
+            }
+            ctr += 1;
+            let payload: Vec<u8> = format!("h{}-{}", h.idx, ctr).into_bytes();
+            let target = match h.rng.below(6) {
+                0 => sink2.clone(),
+                1 => cosmwasm_std::Addr::unchecked(p.actors[5].clone()), // not a contract: delivery fails
+                _ => sink.clone(),
+            };
+            let amount = match h.rng.below(6) {
+                0 => 0u128,
+                1 => 20_000, // more than anybody holds
+                _ => h.rng.range(1, 300) as u128,
+            };
+            let from_allowance = h.rng.chance(1, 2);
+            let (sender, owner) = if from_allowance { (p.actors[3 + h.rng.below_usize(3)].clone(), p.actors[h.rng.below_usize(3)].clone()) } else { (p.actors[h.rng.below_usize(6)].clone(), String::new()) };
+            let holder = if from_allowance { owner.clone() } else { sender.clone() };
+            let before_holder = c.cw20_balance(&tok, &holder);
+            let before_target = c.cw20_balance(&tok, target.as_str());
+            let n1 = c.sink_count(&sink);
+            let n2 = c.sink_count(&sink2);
+            let msg = if from_allowance {
+                cw20::Cw20ExecuteMsg::SendFrom { owner: owner.clone(), contract: target.to_string(), amount: Uint128::new(amount), msg: Binary::from(payload.clone()) }
+            } else {
+                cw20::Cw20ExecuteMsg::Send { contract: target.to_string(), amount: Uint128::new(amount), msg: Binary::from(payload.clone()) }
+            };
+            let r = c.exec(&sender, &tok, &msg, &[]);
+            h.out.evaluations += 1;
+            h.log(|| format!("app: {} {} {amount} -> {} (sink failing={failing}) => {}", short(&sender), if from_allowance { "SendFrom" } else { "Send" }, short(target.as_str()), r.class()));
+            let d1 = c.sink_log(&sink, n1);
+            let d2 = c.sink_log(&sink2, n2);
+            let after_holder = c.cw20_balance(&tok, &holder);
+            let after_target = c.cw20_balance(&tok, target.as_str());
+            h.out.distinct(&("app_send", from_allowance, r.class(), target == sink, failing, amount == 0));
+            if r.is_ok() {
+                h.out.count("app_sends_delivered");
+                let mine = if target == sink { &d1 } else { &d2 };
+                let other = if target == sink { &d2 } else { &d1 };
+                let good = mine.len() == 1 && other.is_empty() && {
+                    let v: serde_json::Value = serde_json::from_str(&mine[0].payload).unwrap_or_default();
+                    v["receive"]["sender"].as_str() == Some(sender.as_str())
+                        && v["receive"]["amount"].as_str() == Some(amount.to_string().as_str())
+                        && v["receive"]["msg"].as_str() == Some(Binary::from(payload.clone()).to_base64().as_str())
+                        && mine[0].sender == tok.as_str()
+                        && mine[0].funds.is_empty()
+                };
+                if !h.check(good, "C02/delivery/not-exactly-one-truthful-notification", || format!("deliveries to target {mine:?}, to the other sink {other:?}; expected one receive{{sender={sender}, amount={amount}}}")) {
+                    return;
+                }
+                if !h.check(after_holder + amount == before_holder && after_target == before_target + amount, "C02/delivery/amount-moved-differs-from-notified", || {
+                    format!("holder {before_holder}->{after_holder}, target {before_target}->{after_target}, notified {amount}")
+                }) {
+                    return;
+                }
+            } else {
+                h.out.count("app_sends_failed");
+                if failing && target == sink {
+                    h.out.count("app_sends_failed_because_receiver_failed");
+                }
+                if !h.check(d1.is_empty() && d2.is_empty() && after_holder == before_holder && after_target == before_target, "C02/delivery/failed-send-left-traces", || {
+                    format!("deliveries {d1:?} {d2:?}; holder {before_holder}->{after_holder}")
+                }) {
+                    return;
+                }
+            }
+        }
+    }
+}
+
 impl Monitor for C02 {
     fn id(&self) -> &'static str {
         "C02"
     }
     fn engine(&self) -> &'static str {
-        "cwv-direct"
+        "cwv-direct + cwv-app (delivery pass, every 8th history)"
     }
     fn histories(&self, tier: Tier) -> u64 {
         tier.pick(400, 48_000)
@@ -460,6 +579,8 @@ impl Monitor for C02 {
             "decreases_beyond_allowance",
             "notifications_checked",
             "race_permutations_run",
+            "app_sends_delivered",
+            "app_sends_failed_because_receiver_failed",
         ]
     }
     fn rule(&self) -> &'static str {
@@ -474,6 +595,10 @@ impl Monitor for C02 {
     }
     fn run_history(&self, h: &mut Hist) {
         if self.directed(h) {
+            return;
+        }
+        if h.idx % 8 == 7 {
+            self.app_pass(h);
             return;
         }
         let mut c = Cw20::new(&mut h.rng);
